@@ -456,7 +456,7 @@ pub fn post_line_break(list: &[Item], breaks: &[usize], p: &ParParams, sw: PlbSw
         let mut disc_break = false;
         let mut post_disc_break = false;
         let mut replaced = 0;
-        let mut next = b;
+        let mut next;
         if !last {
             match &list[b] {
                 Item::Glue(_) => {
@@ -525,7 +525,7 @@ pub fn post_line_break(list: &[Item], breaks: &[usize], p: &ParParams, sw: PlbSw
                 if next == nb {
                     // "except in the anomalous case that the node to be deleted is actually one
                     // of the chosen breakpoints"
-                    stopped_at_break = next < list.len() && list[next].discardable() && !matches!(list[next], Item::Glue(_)) || (next < list.len() && matches!(list[next], Item::Glue(_)));
+                    stopped_at_break = next < list.len() && list[next].discardable();
                     break;
                 }
                 if next >= list.len() {
@@ -590,7 +590,16 @@ pub fn unbreak(list: &[Item], lines: &[Vec<Item>], left_skip: &Spec, right_skip:
     }
     let mut best_fail = (0usize, String::from("no reading fits"));
     let mut u = Unbroken::default();
-    if rec(list, &contents, 0, 0, &[], &mut u, &mut best_fail) {
+    // A sequence of lines can have more than one reading (e.g. a line that holds just a penalty,
+    // followed in the list by glue: broken at the penalty, or at the glue). The lines are judged
+    // by their best reading: first look for one in which no line starts with discardable
+    // material of its own, then for any reading at all.
+    if rec(list, &contents, 0, 0, &[], &mut u, &mut best_fail, true) {
+        Ok(u)
+    } else if {
+        u = Unbroken::default();
+        rec(list, &contents, 0, 0, &[], &mut u, &mut best_fail, false)
+    } {
         Ok(u)
     } else {
         Err(format!("line {}: {}", best_fail.0, best_fail.1))
@@ -603,7 +612,8 @@ fn note(best: &mut (usize, String), k: usize, msg: impl FnOnce() -> String) {
     }
 }
 
-fn rec(list: &[Item], contents: &[&[Item]], k: usize, cursor: usize, pending_post: &[Item], u: &mut Unbroken, best: &mut (usize, String)) -> bool {
+#[allow(clippy::too_many_arguments)]
+fn rec(list: &[Item], contents: &[&[Item]], k: usize, cursor: usize, pending_post: &[Item], u: &mut Unbroken, best: &mut (usize, String), strict: bool) -> bool {
     let c = contents[k];
     if c.len() < pending_post.len() || c[..pending_post.len()] != *pending_post {
         note(best, k, || format!("does not begin with the post-break material {}", show_list(pending_post)));
@@ -615,6 +625,9 @@ fn rec(list: &[Item], contents: &[&[Item]], k: usize, cursor: usize, pending_pos
     let tail = &list[cursor.min(list.len())..];
     if last {
         if rest == tail {
+            if own_start_discardable && strict {
+                return false;
+            }
             u.breaks.push(list.len());
             if own_start_discardable {
                 u.starts_with_discardable.push(k);
@@ -665,6 +678,9 @@ fn rec(list: &[Item], contents: &[&[Item]], k: usize, cursor: usize, pending_pos
         return false;
     }
     for (b, after, post, may_drop, is_own_break_item) in cands {
+        if strict && own_start_discardable && !is_own_break_item {
+            continue;
+        }
         let mut run = 0;
         if may_drop {
             while after + run < list.len() && list[after + run].discardable() {
@@ -679,7 +695,7 @@ fn rec(list: &[Item], contents: &[&[Item]], k: usize, cursor: usize, pending_pos
             if own_start_discardable && !is_own_break_item {
                 u.starts_with_discardable.push(k);
             }
-            if rec(list, contents, k + 1, after + drop, post, u, best) {
+            if rec(list, contents, k + 1, after + drop, post, u, best, strict) {
                 return true;
             }
             u.breaks.truncate(mark.0);
@@ -727,5 +743,26 @@ mod tests {
         let ls: Vec<Vec<Item>> = lines.iter().map(|l| l.items.clone()).collect();
         let u = unbreak(&l, &ls, &Spec::ZERO, &Spec::ZERO).unwrap();
         assert_eq!(u.starts_with_discardable, vec![1]);
+    }
+    /// TeX §879's anomalous case: the pruning stops at the next chosen breakpoint, so a line can hold
+    /// just the penalty it is broken at. The same lines could be misread as "broken at the glue
+    /// after the penalty" (then the line would start with a discardable item); the best reading counts.
+    #[test]
+    fn line_holding_only_its_break_penalty() {
+        let l = prepare(&[ch('a'), Item::Penalty(0), gl(), Item::Penalty(20), gl(), ch('b')], &Spec { w: 0, st: 65536, st_o: 1, sh: 0, sh_o: 0 });
+        let p = ParParams { left_skip: Spec::ZERO, right_skip: Spec::ZERO, widths: vec![5 * 65536], indents: vec![], inter_line_penalty: 0, club_penalty: 0, widow_penalty: 0, broken_penalty: 0 };
+        let lines = post_line_break(&l, &[1, 3, l.len()], &p, Default::default()).unwrap();
+        assert_eq!(lines[1].items, vec![Item::Penalty(20), Item::Glue(Spec::ZERO)]);
+        assert!(lines[0].prune_stopped_at_break);
+        assert_eq!(lines[2].items[0], ch('b'));
+        let ls: Vec<Vec<Item>> = lines.iter().map(|l| l.items.clone()).collect();
+        let u = unbreak(&l, &ls, &Spec::ZERO, &Spec::ZERO).unwrap();
+        assert!(u.starts_with_discardable.is_empty());
+        assert_eq!(u.breaks.len(), 3); // (the reading itself is not unique: [1,3,8] and [2,3,8] both conserve the list)
+        // without pruning the second line starts with the glue: every reading has a bad line start
+        let lines = post_line_break(&l, &[1, 3, l.len()], &p, PlbSwitches { prune: false }).unwrap();
+        let ls: Vec<Vec<Item>> = lines.iter().map(|l| l.items.clone()).collect();
+        let u = unbreak(&l, &ls, &Spec::ZERO, &Spec::ZERO).unwrap();
+        assert!(!u.starts_with_discardable.is_empty());
     }
 }
